@@ -17,7 +17,9 @@ VT = 'pyPRISM.core.ValueTable:ValueTable'
 TB = 'pyPRISM.core.Table:Table'
 SP = 'pyPRISM.core.Space:Space'
 LABELS = ['A', 'B', 'C', 'D']
-SIZES = (1, 2, 3)
+import os as _os
+_THOROUGH = _os.environ.get('PYVC_TIER') == 'thorough'      # the thorough tier adds rank / type-list size 4
+SIZES = (1, 2, 3, 4) if _THOROUGH else (1, 2, 3)
 
 
 def mk_PT(f, name, n, symmetric=True, mk_val=None, all_set=False):
@@ -88,7 +90,7 @@ def PairTable_init(self, types, name, symmetric=True):
 
 @cases(PairTable_init)
 def _pt_init_cases():
-    for n in SIZES + (4,):
+    for n in tuple(sorted(set(SIZES + (4,)))):
         for sym in (True, False):
             def build(f, n=n, sym=sym):
                 return dict(self=f.obj(PT), types=list(LABELS[:n]), name='tbl', symmetric=sym)
@@ -176,7 +178,7 @@ def PairTable_iterpairs(self, full=False, diagonal=True):
 
 @cases(PairTable_iter)
 def _pt_iter_cases():
-    for n in SIZES + (4,):
+    for n in tuple(sorted(set(SIZES + (4,)))):
         def build(f, n=n):
             return dict(self=mk_PT(f, 'T', n))
         yield 'types=%d' % n, build
@@ -184,7 +186,7 @@ def _pt_iter_cases():
 
 @cases(PairTable_iterpairs)
 def _pt_iterpairs_cases():
-    for n in SIZES + (4,):
+    for n in tuple(sorted(set(SIZES + (4,)))):
         for full in (False, True):
             for diag in (True, False):
                 def build(f, n=n, full=full, diag=diag):
@@ -297,7 +299,7 @@ def ValueTable_init(self, types, name):
 
 @cases(ValueTable_init)
 def _vt_init_cases():
-    for n in SIZES + (4,):
+    for n in tuple(sorted(set(SIZES + (4,)))):
         def build(f, n=n):
             return dict(self=f.obj(VT), types=list(LABELS[:n]), name='tbl')
         yield 'types=%d' % n, build
@@ -340,7 +342,7 @@ def ValueTable_iter(self):
 
 @cases(ValueTable_iter)
 def _vt_iter_cases():
-    for n in SIZES + (4,):
+    for n in tuple(sorted(set(SIZES + (4,)))):
         def build(f, n=n):
             return dict(self=mk_VT(f, 'T', n))
         yield 'types=%d' % n, build
